@@ -11,12 +11,13 @@ const NAMES: &[&str] = &[
 const COOKWARE: &[&str] = &["pan", "oven", "big bowl", "whisk", "pot", "baking tray"];
 const UNITS: &[&str] = &[
     "g", "kg", "ml", "l", "cup", "cups", "tsp", "tbsp", "oz", "lb", "min", "minutes", "h", "bag",
-    "°C", "F", "pinch", "",
+    "°C", "F", "pinch", "", "c", "C", "m",
 ];
 const TIME_UNITS: &[&str] = &["min", "minutes", "h", "s", "hour", ""];
 const WORDS: &[&str] = &[
     "Add", "the", "and", "mix", "until", "combined", "then", "bake", "for", "about", "Let", "rest",
     "Préchauffer", "à", "stir", "well", "180 °C", "20 ºC", "350 F", "1/2", "3", "–", "ñ", "🍅",
+    "2 cups", "2 Cups", "5 min", "5 Min", "3 c", "3 C", "100 g", "100 G",
 ];
 const META_KEYS: &[&str] = &[
     "time", "prep time", "cook time", "servings", "tags", "source", "author", "title",
@@ -41,15 +42,31 @@ fn number(r: &mut Rng) -> String {
     }
 }
 
+/// a unit, sometimes with unusual letter case (units are case-sensitive: `c` is a cup, `C` is Celsius)
+fn unit(r: &mut Rng, units: &[&str]) -> String {
+    let u = r.pick_str(units).to_string();
+    match r.below(8) {
+        0 => u.to_uppercase(),
+        1 => {
+            let mut c = u.chars();
+            match c.next() {
+                Some(f) => f.to_uppercase().collect::<String>() + c.as_str(),
+                None => u,
+            }
+        }
+        _ => u,
+    }
+}
+
 fn quantity(r: &mut Rng, units: &[&str]) -> String {
     match r.below(10) {
         0 => "{}".into(),
         1 => format!("{{{}}}", number(r)),
-        2 => format!("{{{} {}}}", number(r), r.pick(units)),
-        3 => format!("{{={}%{}}}", number(r), r.pick(units)),
+        2 => format!("{{{} {}}}", number(r), unit(r, units)),
+        3 => format!("{{={}%{}}}", number(r), unit(r, units)),
         4 => format!("{{{}%}}", number(r)),
-        5 => format!("{{%{}}}", r.pick(units)),
-        _ => format!("{{{}%{}}}", number(r), r.pick(units)),
+        5 => format!("{{%{}}}", unit(r, units)),
+        _ => format!("{{{}%{}}}", number(r), unit(r, units)),
     }
 }
 
